@@ -103,6 +103,9 @@ func genWorldSpec(r *engine.PRNG) WorldSpec {
 		b := BitmapSpec{Seed: r.Uint64()}
 		b.Shape = r.PickStr("sparse", "dense", "allones", "gaps", "edges", "half")
 		b.NWords = r.PickInt(1, 2, 3, 4, 5, 8, 17, 40)
+		if r.Chance(1, 40) {
+			b.NWords = r.PickInt(1023, 1024, 1025, 2500) // beyond 2^16 bits
+		}
 		w.Bitmaps = append(w.Bitmaps, b)
 	}
 	nk := 2 + r.Intn(3)
